@@ -604,6 +604,58 @@ def _eval(h, ast, var, classify, what):
     h.fail(f"shape not understood in {what}: no match arm applies")
 
 
+def _normalise_escape_loop(h, src, body):
+    """behaviour-preserving shapes of the `apply_escapes` loop brought to ONE form before it is classified:
+    any loop variable (-> i); the test through a one-level private helper `fn f(c: &AttrChar) -> bool { EXPR }`
+    (inlined); `if !T { continue; } REST` (-> `if T { REST }`); a local alias of `chars[i + 1..]` (inlined);
+    `let n = E; if let Some(o) = n` (-> `if let Some(offset) = E`); any name for the offset / the closure parameter."""
+    m = re.search(r"for\s+([a-z_][a-z0-9_]*)\s+in\s+0\s*\.\.\s*chars\.len\(\)", body)
+    if not m:
+        return body
+    if m.group(1) != "i":
+        if re.search(r"\bi\b", body):
+            h.fail("shape not understood in apply_escapes: loop variable and another `i`")
+        body = re.sub(r"\b" + m.group(1) + r"\b", "i", body)
+    # one-level helper on chars[i]
+    for call in re.finditer(r"\b([a-z_][a-z0-9_]*)\s*\(\s*&?\s*chars\[i\]\s*\)", body):
+        name = call.group(1)
+        d = re.search(r"fn\s+" + name + r"\s*\(\s*([a-z_][a-z0-9_]*)\s*:\s*&?\s*AttrChar\s*\)\s*->\s*bool\s*\{([^{};]*)\}", src)
+        if not d:
+            h.fail(f"shape not understood in apply_escapes: `{name}(chars[i])` is not a one-expression helper of this file")
+        expr = re.sub(r"\b" + d.group(1) + r"\b", "chars[i]", d.group(2).strip())
+        body = body.replace(call.group(0), "(" + expr + ")")
+    # `if G { continue; }` guard at the top of the loop body
+    g = re.search(r"(for\s+i\s+in\s+0\s*\.\.\s*chars\.len\(\)\s*\{)\s*if\s+(.*?)\s*\{\s*continue\s*;\s*\}(.*)\}\s*$", body, re.S)
+    if g:
+        body = g.group(1) + " if !(" + g.group(2) + ") {" + g.group(3) + "} }"
+    # alias of the rest of the slice
+    a = re.search(r"let\s+([a-z_][a-z0-9_]*)\s*=\s*&?\s*chars\[\s*i\s*\+\s*1\s*\.\.\s*\]\s*;", body)
+    if a:
+        body = body.replace(a.group(0), "")
+        body = re.sub(r"\b" + a.group(1) + r"\b", "chars[i + 1..]", body)
+    # `let n = E; if let Some(o) = n {`
+    n = re.search(r"let\s+([a-z_][a-z0-9_]*)\s*=\s*([^;]+);\s*if\s+let\s+Some\(\s*([a-z_][a-z0-9_]*)\s*\)\s*=\s*\1\s*\{", body)
+    if n:
+        body = body.replace(n.group(0), f"if let Some({n.group(3)}) = {n.group(2)} {{")
+    o = re.search(r"if\s+let\s+Some\(\s*([a-z_][a-z0-9_]*)\s*\)", body)
+    if o and o.group(1) != "offset":
+        body = re.sub(r"\b" + o.group(1) + r"\b", "offset", body)
+    p = re.search(r"position\(\s*\|\s*([a-z_][a-z0-9_]*)\s*\|\s*!\s*\1\.is_quoting\s*\)", body)
+    if p and p.group(1) != "c":
+        body = body.replace(p.group(0), "position(|c| !c.is_quoting)")
+    return body
+
+
+def _fn_text(src, fn_pos, name):
+    """source text of the (first) function `name`, up to the next `fn` at the same or outer nesting (approximation:
+    up to the next function start)"""
+    starts = [pos for pos, n in fn_pos if n == name]
+    if not starts:
+        return ""
+    nxt = [pos for pos, n in fn_pos if pos > starts[0]]
+    return src[starts[0]:nxt[0] if nxt else len(src)]
+
+
 def _bool(b):
     return "true" if b else "false"
 
@@ -638,9 +690,10 @@ def fnmatch_decisions(h):
 
     # apply_escapes: the loop, the condition on chars[i], what the body sets
     body = h.item_body(af, r"fn\s+apply_escapes\b[^{]*", "fn apply_escapes in attr_fnmatch.rs")
+    body = _normalise_escape_loop(h, af, body)
     flat = re.sub(r"\s+", "", body)
-    m = re.fullmatch(r"foriin0\.\.chars\.len\(\)\{if(.*?)\{letnext=(chars\[i\+1\.\.\]\.iter\(\)\.position\(\|c\|!c\.is_quoting\));"
-                     r"ifletSome\(offset\)=next\{(.*)\}\}\}", flat)
+    m = re.fullmatch(r"foriin0\.\.chars\.len\(\)\{if(.*?)\{ifletSome\(offset\)="
+                     r"(chars\[i\+1\.\.\]\.iter\(\)\.position\(\|c\|!c\.is_quoting\))\{(.*)\}\}\}", flat)
     if not m:
         h.fail("shape not understood in apply_escapes: not `for i in 0..chars.len() { if … { let next = "
                "chars[i + 1..].iter().position(|c| !c.is_quoting); if let Some(offset) = next { … } } }`")
@@ -761,8 +814,45 @@ def fnmatch_decisions(h):
             specials.setdefault(owner[-1], set()).add(h.rust_char(m2.group(1)))
     if not specials:
         h.fail("no special characters read from ast/parse.rs")
+    # a private free helper called from exactly one function counts as part of that function
+    methods = {name for pos, name in fn_pos if re.search(r"\n[ \t]+(?:pub(?:\([a-z]+\))?\s+)?fn\s+" + name + r"\b", pr)}
+    for helper_fn in [n for n in list(specials) if n not in methods]:
+        callers = {name for pos, name in fn_pos if name != helper_fn and
+                   re.search(r"\b" + helper_fn + r"\s*\(", _fn_text(pr, fn_pos, name))}
+        if len(callers) != 1:
+            h.fail(f"shape not understood in ast/parse.rs: free function {helper_fn} with {len(callers)} callers")
+        specials.setdefault(callers.pop(), set()).update(specials.pop(helper_fn))
+
+    # parse_inner: opening delimiter -> (closing delimiter, constructor), from three loops or from ONE helper
+    # parameterised by the delimiter
+    pi = _fn_text(pr, fn_pos, "parse_inner")
+    forms = []
+    arms = list(re.finditer(r"Some\(\s*PatternChar::Normal\('((?:\\\\.|[^'\\\\]))'\)\s*\)\s*=>\s*", pi))
+    for k, am in enumerate(arms):
+        arm = pi[am.end():arms[k + 1].start() if k + 1 < len(arms) else len(pi)]
+        opening = h.rust_char(am.group(1))
+        t = re.match(r"\(\s*'((?:\\\\.|[^'\\\\]))'\s*,\s*BracketAtom::([A-Za-z]+)\s*\)", arm)
+        if t:
+            # (delimiter, constructor) pair handed to a helper that closes on [Normal(delimiter), Normal(']')]
+            call = re.search(r"\b([a-z_][a-z0-9_]*)\s*\(\s*i\s*,\s*delimiter\s*\)", pi)
+            hb = _fn_text(pr, fn_pos, call.group(1)) if call else ""
+            if not re.search(r"\[\s*PatternChar::Normal\(\s*delimiter\s*\)\s*,\s*PatternChar::Normal\('\]'\)\s*\]", hb):
+                h.fail("shape not understood in parse_inner: the helper does not close on [Normal(delimiter), Normal(']')]")
+            forms.append((opening, h.rust_char(t.group(1)), t.group(2)))
+            continue
+        c = re.search(r"ends_with\(\s*&\[\s*PatternChar::Normal\('((?:\\\\.|[^'\\\\]))'\)\s*,\s*PatternChar::Normal\('\]'\)\s*\]\s*\)", arm)
+        k2 = re.search(r"BracketAtom::([A-Za-z]+)\s*\(", arm)
+        if not c or not k2:
+            h.fail(f"shape not understood in parse_inner: arm for {opening!r}")
+        forms.append((opening, h.rust_char(c.group(1)), k2.group(1)))
+    if not forms:
+        h.fail("shape not understood in parse_inner: no delimiter arms")
+    forms.sort()
 
     out = (
+        "/-- ast/parse.rs `parse_inner`: (opening delimiter, closing delimiter before `]`, constructor), sorted -/\n"
+        "def innerForms : List (Char × Char × String) := ["
+        + ", ".join(f'(Char.ofNat {ord(a)}, Char.ofNat {ord(b)}, "{c}")' for a, b, c in forms) + "]\n\n"
         "/-- ast/parse.rs: the unquoted characters each function gives a meaning to, sorted by code point -/\n"
         "def parserSpecials : List (String × List Char) := ["
         + ", ".join(f'("{fn}", [' + ", ".join(f"Char.ofNat {ord(c)}" for c in sorted(cs)) + "])"
